@@ -83,6 +83,13 @@ class JitCore_Python(jitcore.JitCore):
             # Refresh CPU values according to @cpu instance
             exec_engine.update_engine_from_cpu()
 
+            if has_delayslot:
+                # The pending-branch flag is local to one block execution (as
+                # in the C backends): do not inherit it from a previous block
+                exec_engine.symbols[codegen.delay_slot_set] = ExprInt(
+                    0, codegen.delay_slot_set.size
+                )
+
             # Get initial loc_key
             cur_loc_key = asmblock.loc_key
 
